@@ -39,6 +39,9 @@ pub fn run(rep: &mut Report, thorough: bool) {
     }
     for (ci, cfg) in cfgs.iter().enumerate() {
         let tag = format!("cfg{}", ci);
+        if ci < 2 {
+            crate::props::pairs::pair_histories_owned(rep, cfg, &format!("pair-histories-{}", tag), &crate::props::pairs::l2l4_frames(), Some(("C06", crate::props::pairs::is_syn, "synack-depends-on-history")));
+        }
         // flags x reserved x payload x seq x version
         let dims = [512u64, 8, 3, SEQS.len() as u64, 2];
         sweep_frames(rep, cfg, &format!("flags-{}", tag), "flags 0..511 x reserved 0..7 x payload (3) x seq (6 edge values) x {v4,v6}", product(&dims), |i| {
